@@ -34,22 +34,10 @@ func c04Healthy(r *rng, id string) {
 	var accusations []string
 	leavers := map[string]bool{}
 	cl.net.tap = func(src, dst string, buf []byte) {
-		check := func(p []byte) {
-			if len(p) == 0 {
-				return
-			}
-			if p[0] == 3 {
+		for _, p := range simParts(buf) {
+			if len(p) > 0 && p[0] == 3 {
 				accusations = append(accusations, fmt.Sprintf("suspect@%dms:%s->%s", cl.since().Milliseconds(), src, dst))
 			}
-		}
-		if len(buf) > 0 && buf[0] == 7 {
-			if _, parts, err := ml.VerifDecodeCompoundMessage(buf[1:]); err == nil {
-				for _, p := range parts {
-					check(p)
-				}
-			}
-		} else {
-			check(buf)
 		}
 	}
 	failed := cl.joinAll(300 * time.Millisecond)
